@@ -317,10 +317,20 @@ def enum_paths(cfg, start_block, stop_blocks, within=None, max_paths=2000):
             count[0] += 1
             out.append((items, None))
             return
+        sw_vals = None
+        if b.term and b.term.get("kind") == "switch" and b.term.get("cond"):
+            sw_vals = tuple(sorted(cfg.blocks[s_].label["v"] for _k, s_ in succs
+                                   if cfg.blocks[s_].label and cfg.blocks[s_].label.get("kind") == "case"
+                                   and "v" in cfg.blocks[s_].label))
         for k, s in succs:
             it2 = items
             if br and br[1] != br[2]:
                 it2 = items + [("br", br[0], k == 0)]
+            elif sw_vals is not None:
+                lab = cfg.blocks[s].label
+                v_ = lab["v"] if lab and lab.get("kind") == "case" and "v" in lab else None
+                # ("sw", condition node, the case value taken or None for default / fall-out, all case values)
+                it2 = items + [("sw", b.term["cond"], v_, sw_vals)]
             if s in stop_blocks:
                 count[0] += 1
                 out.append((it2, s))
